@@ -264,6 +264,7 @@ Section Exit.
       + intros w. unfold upd. destruct (Nat.eqb w (wof c (sid s))); [cbn; discriminate | apply F2].
       + intros w. unfold upd. destruct (Nat.eqb w (wof c (sid s))); [cbn; discriminate | apply F3].
       + intros k X. apply in_or_app. left. apply F4, X.
+    - (* ONext *) des S; inv_some S; apply (FInv_same st); auto; cbn; auto.
   Qed.
 
   Lemma FInv_init : FInv pinit.
